@@ -51,7 +51,32 @@ pub fn hll(max_len: usize) -> (u64, Vec<Viol>) {
     let mut cases = 0u64;
     let mut out: Vec<Viol> = vec![];
     for b in [4usize, 9, 16] {
-        for seq in sequences(max_len) {
+        // alphabet for this precision: three elements that the default hasher sends to the SAME register with three
+        // different ranks (found by search; deterministic) and one element of another register - orders of arrival
+        // within one register are what a batching / buffering Extend can get wrong
+        let alpha: Vec<u64> = {
+            use std::hash::BuildHasher;
+            let bh = std::hash::BuildHasherDefault::<std::collections::hash_map::DefaultHasher>::default();
+            let mut by_reg: std::collections::HashMap<usize, Vec<(u8, u64)>> = Default::default();
+            let mut found: Option<Vec<u64>> = None;
+            for x in 0u64..2_000_000 {
+                let (idx, rank) = crate::hll::reference(b, bh.hash_one(x));
+                let e = by_reg.entry(idx).or_default();
+                if !e.iter().any(|(r, _)| *r == rank) {
+                    e.push((rank, x));
+                    if e.len() == 3 {
+                        let mut v: Vec<(u8, u64)> = e.clone();
+                        v.sort();
+                        found = Some(v.iter().map(|(_, x)| *x).collect());
+                        break;
+                    }
+                }
+            }
+            let mut a = found.unwrap_or_else(|| vec![0, 1, 7]);
+            a.push(u64::MAX);
+            a
+        };
+        for seq in sequences(max_len).into_iter().map(|s| s.into_iter().map(|l| alpha[ALPHA.iter().position(|&a| a == l).unwrap()]).collect::<Vec<u64>>()) {
             let mut want: HyperLogLog<u64> = HyperLogLog::new(b);
             for x in &seq {
                 want.add(x);
